@@ -44,6 +44,7 @@ def run(ctx):
     ctx.rule('CONSTRUCT', 'flip contexts are constructed only by the validated builders')
     ctx.rule('TXN', 'flip entry points and kernel layers are clean on failure')
     ctx.rule('HASHCANON', 'every simplex hash in the flip code is computed over the u64-sorted key sequence')
+    ctx.rule('DIMGATE', 'each flip context builder refuses dimensions below the size of its move')
     ctx.rule('POSTFLIP', 'a flip layer reports success only behind neighbour wiring, removal of the old cells and the '
                          'coherent-orientation normalisation')
     for cfg in ctx.cfgs:
@@ -52,6 +53,7 @@ def run(ctx):
         _hashcanon(ctx, cfg, prog, mod)
         lv = gate.Leaves(prog)
         _postflip(ctx, cfg, prog, lv)
+        _dimgate(ctx, cfg, prog)
         kb = ctx.anchor(cfg, KERNEL)
         if kb is None:
             continue
@@ -266,6 +268,82 @@ def _postflip(ctx, cfg, prog, lv):
                            'orientation / no stale cells) is not re-established for that move' % leaf.rsplit('::', 1)[-1])
             ctx.ob('POSTFLIP', '%s|%s' % (q, leaf.rsplit('::', 1)[-1]), cfg, r['ok'], detail, site=site)
     ctx.floor('flip layers', 3, n, cfg)
+
+
+# minimal dimension of each builder's move: a forward k-move replaces k cells around a (D+1-k)-face by D+2-k cells
+# around a (k-1)-face and needs k <= D (k = D+1 is the vertex removal, which has to delete the vertex as well and is
+# only offered through apply_bistellar_flip_k1_inverse); the inverse builders start from the (k-1)-face and need
+# D+2-k >= 2 cells in the *result* of their own forward reading, i.e. one dimension more
+MIN_DIM = {
+    F + 'build_k2_flip_context': 2,
+    F + 'build_k3_flip_context': 3,
+    F + 'build_k2_flip_context_from_edge': 3,
+    F + 'build_k3_flip_context_from_triangle': 4,
+}
+
+
+def _dimgate(ctx, cfg, prog):
+    """DIMGATE: the generic kernel accepts any k <= D+1; for k = D+1 it collapses a vertex star without deleting the
+    vertex.  Each builder therefore starts with a comparison of the const generic D against a literal that is at
+    least the size of its move, whose failing edge returns Err and which dominates everything else."""
+    n = 0
+    for q, need in sorted(MIN_DIM.items()):
+        b = prog.bodies.get(q)
+        if b is None:
+            ctx.ob('ANCHOR', 'missing|' + q, cfg, False, 'DIMGATE table names a function that no longer exists')
+            continue
+        n += 1
+        uses = flow._collect_uses(b)
+        best = None
+        gate_edges = set()
+        for blk in b.blocks:
+            if blk.cleanup:
+                continue
+            for s_ in blk.stmts:
+                if s_.kind != 'A' or s_.rv.k != 'bin' or len(s_.rv.ops) != 2 or not s_.place.is_local():
+                    continue
+                a_, b_ = s_.rv.ops
+                op = s_.rv.raw.get('op')
+                isD = lambda o: o.kind == 'k' and isinstance(o.const, dict) and o.const.get('v') == 'D'
+                lit = lambda o: o.int_value() if o.kind == 'k' else None
+                # normalise to "rejected when D < m"
+                m = None
+                if isD(a_) and lit(b_) is not None and op in ('Lt', 'Le'):
+                    m = lit(b_) + (1 if op == 'Le' else 0)
+                    pol = True           # comparison true => too small
+                elif isD(b_) and lit(a_) is not None and op in ('Gt', 'Ge'):
+                    m = lit(a_) + (1 if op == 'Ge' else 0)
+                    pol = True
+                elif isD(a_) and lit(b_) is not None and op in ('Ge', 'Gt'):
+                    m = lit(b_) + (1 if op == 'Gt' else 0)
+                    pol = False          # comparison true => large enough
+                if m is None:
+                    continue
+                for (sbb, _, snode, how) in uses.get(s_.place.local, []):
+                    if how != 'switch':
+                        continue
+                    listed = {v: tg for v, tg in snode.values}
+                    false_t = listed.get(0)
+                    true_t = snode.otherwise if 0 in listed else None
+                    ok_t = false_t if pol else true_t
+                    if ok_t is not None and (best is None or m > best):
+                        best = m
+                        gate_edges = {(sbb, ok_t)}
+        site = '%s:%d' % (b.file, b.line)
+        if best is None:
+            ctx.ob('DIMGATE', q, cfg, False, 'no comparison of the const generic D with a literal found (minimum %d)' % need, site=site)
+            continue
+        # the accepting edge must dominate every call that reads the triangulation
+        reach = flow.reach_edges(b, [0], avoid_edges=gate_edges)
+        leaks = [t.line for bb, t in b.calls() if bb in reach and (t.resolved or t.callee or '') in prog.bodies]
+        ok = best >= need and not leaks
+        ctx.ob('DIMGATE', q, cfg, ok,
+               'refuses D < %d (move needs D >= %d)%s' % (best, need, '' if ok else
+               ': a %s in a smaller dimension reaches the generic kernel with k = D+1, which collapses a vertex star without '
+               'deleting the vertex (isolated vertex, vertex set changed by a k >= 2 move)' % q.rsplit('::', 1)[-1]
+               if best < need else '; crate calls at lines %s are reachable without passing the gate' % leaks[:3]),
+               site=site)
+    ctx.floor('flip context builders with a dimension gate', 4, n, cfg)
 
 
 def _hashcanon(ctx, cfg, prog, mod):
